@@ -168,6 +168,33 @@ pub fn serialise(recs: &[Rec], ser: Ser) -> (Vec<u8>, Vec<usize>) {
     }
 }
 
+/// two records; the id of the second holds a multi-byte character whose first byte lies `delta` bytes from offset
+/// `boundary` of the text (FASTA, one line per record)
+fn boundary_id_case(boundary: usize, delta: i64, width: usize, container: &str) -> (Vec<Rec>, Vec<u8>) {
+    let ch = match width {
+        2 => "\u{e4}",
+        3 => "\u{2192}",
+        _ => "\u{1f9ec}",
+    };
+    // ">first\n" (7 bytes) + bases + "\n" + ">B" (2 bytes), then the character
+    let len = (boundary as i64 + delta - 10) as usize;
+    let recs = vec![
+        Rec { header: "first".into(), bases: long_bases(len, 5) },
+        Rec { header: format!("B{ch}cker_1 desc {ch}"), bases: b"ACGTNACG".to_vec() },
+        Rec { header: format!("{ch}"), bases: b"TT".to_vec() },
+    ];
+    let (text, _) = serialise(&recs, Ser::FastaLine);
+    let at = (boundary as i64 + delta) as usize;
+    let bytes = match container {
+        "plain" => text.clone(),
+        "gz6" => gz_members(&[&text], 6),
+        "gz0" => gz_members(&[&text], 0),
+        // a member boundary inside the character
+        _ => gz_members(&[&text[..at + 1], &text[at + 1..]], 6),
+    };
+    (recs, bytes)
+}
+
 fn gz_members(parts: &[&[u8]], level: u32) -> Vec<u8> {
     let mut out = Vec::new();
     for p in parts {
@@ -703,6 +730,25 @@ pub fn c06(ctx: &mut Ctx) {
             }
         }
     }
+    // ids with multi-byte characters that lie across the I/O buffer boundaries of the text (and across a gzip member
+    // boundary): the reader must hand the id out as it is in the file
+    for boundary in [4096usize, 8192, 16384, 24576, 32768, 65536, 131072] {
+        for delta in [-3i64, -2, -1, 0] {
+            for width in [2usize, 3, 4] {
+                for container in ["plain", "gz6", "gz0", "gz-cut"] {
+                    if !sh.mine() {
+                        continue;
+                    }
+                    let (recs, bytes) = boundary_id_case(boundary, delta, width, container);
+                    case_no += 1;
+                    let argv = vec!["case".to_string(), "C06idb".to_string(), boundary.to_string(), delta.to_string(), width.to_string(), container.to_string()];
+                    let label = if container == "plain" { "plain".to_string() } else { format!("{container}-id-char-at-{boundary}{delta:+}") };
+                    c06_read(ctx, &recs, Ser::FastaLine, &label, &bytes, case_no, argv);
+                    ctx.rep.count("files.id_characters_at_buffer_boundaries", 1);
+                }
+            }
+        }
+    }
     // suffix table
     if ctx.shard.is_first() {
         for (name, exp) in [
@@ -998,8 +1044,13 @@ pub fn c07_configs(ctx: &mut Ctx) {
                 continue;
             }
             let recs = vec![text[..d + 20].to_vec()];
-            c07_run(ctx, &recs, 21, if d % 5 == 0 { 3 } else { 1 }, 6.0, d % 2 == 0, true, "distinct-sweep");
+            // text rendering with one worker (one partition holds every k-mer), numeric with three on every third count
+            c07_run(ctx, &recs, 21, 1, 6.0, true, true, "distinct-sweep");
             nd += 1;
+            if d % 3 == 0 {
+                c07_run(ctx, &recs, 21, 3, 6.0, false, true, "distinct-sweep");
+                nd += 1;
+            }
         }
         ctx.rep.count("cases.distinct_count_sweep", nd);
     }
@@ -1683,6 +1734,10 @@ pub fn replay(ctx: &mut Ctx, args: &[String]) {
             let (text, bounds) = serialise(&recs, ser);
             let bytes = container_bytes(&text, &bounds, &args[4]);
             c06_read(ctx, &recs, ser, &args[4], &bytes, 0, vec![]);
+        }
+        "C06idb" => {
+            let (recs, bytes) = boundary_id_case(args[1].parse().unwrap(), args[2].parse().unwrap(), args[3].parse().unwrap(), &args[4]);
+            c06_read(ctx, &recs, Ser::FastaLine, &args[4], &bytes, 0, vec![]);
         }
         "C06size" => {
             let n: usize = args[1].parse().unwrap();
